@@ -714,12 +714,23 @@ sqf::runtime::runtime::result sqf::runtime::runtime::execute(sqf::runtime::runti
     {
         while (m_state == state::running);
     }
-    if (!nested && m_state != state::running)
+    const bool outside_run = !nested && m_state != state::running;
+    const size_t contexts_before = m_contexts.size();
+    if (outside_run)
     { // no run is in progress: the exit request and the time budget of an earlier run are not
       // those of this evaluation
         m_is_exit_requested = false;
         m_run_timestamp = std::chrono::system_clock::now();
     }
+    // An evaluation outside a run leaves no scripts behind (its own context, scripts it spawned):
+    // they would be picked up by whatever run comes next
+    struct contexts_guard
+    {
+        std::vector<std::shared_ptr<context>>& contexts;
+        size_t keep;
+        bool active;
+        ~contexts_guard() { if (active && contexts.size() > keep) { contexts.resize(keep); } }
+    } drop_contexts{ m_contexts, contexts_before, outside_run };
     auto& sqf_parser = parser_sqf();
     auto opt_set = sqf_parser.parse(*this, view, { std::string("__evaluate_expression__.sqf"), {} });
     if (opt_set.has_value())
